@@ -261,6 +261,8 @@ func runReq(raw json.RawMessage, seed int64, rec *Rec) {
 		body = full[:len(full)-2]
 	case "badmsg":
 		body = env(0, bad)
+	case "badutf8": // does not decode, and what an error message would quote of it is not valid UTF-8
+		body = env(0, []byte("\"\xff\xfe\x80 not utf-8\""))
 	case "oversize":
 		body = env(0, encodeBV(codec, big))
 	case "cnoenc":
